@@ -27,9 +27,6 @@ def run(ctx):
     ctx.assumptions = ['types are identified by name in the specification']
     for name, menu, depth in MENUS[ctx.tier]:
         unitscheck.run_menu(ctx, name, menu, depth)
-    return
-    from checks import moneycheck
-    moneycheck.rejected_currency_params(ctx)
     from checks import mconvcheck
     mconvcheck.rejected_updates(ctx)
 
